@@ -101,6 +101,21 @@ func (w *World) exec(i int, s *Step) {
 	switch s.Kind {
 	case "wait", "", "checkpoint":
 	case "connect":
+		// a (re)connecting peer has forgotten its previous connection (peer restart): the old
+		// one is reset first. Simultaneous connections are the business of "connect2" (C24).
+		if p != nil {
+			if p.conn != nil && !p.conn.peerClosed && !p.conn.ClosedByDUT() {
+				p.Send(EncodeNotification(6, 4, nil)) // Cease / administrative reset
+				for k := 0; k < 200 && p.conn.pendingPeerTx > 0; k++ {
+					e.Sim.RunFor(us(1000))
+				}
+				e.Sim.Settle()
+				p.CloseConn(false)
+				e.Sim.Settle()
+			}
+			p.Connect()
+		}
+	case "connect2":
 		if p != nil {
 			p.Connect()
 		}
